@@ -102,6 +102,9 @@ type stress struct {
 	stop       atomic.Bool
 	flushing   atomic.Int64
 	compacting atomic.Int64
+	pauseW     atomic.Bool // quiet window: writers pause (the shard goes write-cold with unflushed rows)
+	pauseF     atomic.Bool // quiet window: no forced flush (the background snapshot goroutine gets its turn)
+	bgWindows  atomic.Int64
 	flushGen   atomic.Int64
 	compGen    atomic.Int64
 	out        stressOut
@@ -188,6 +191,9 @@ func (st *stress) writer(w int, r *gen.Rand, wg *sync.WaitGroup) {
 	}
 	batches := 0
 	for !st.stop.Load() {
+		for st.pauseW.Load() && !st.stop.Load() {
+			time.Sleep(3 * time.Millisecond)
+		}
 		batches++
 		for j := range lateAt {
 			if batches == lateAt[j] && nser == st.cfg.SeriesPerW+j {
@@ -436,6 +442,9 @@ func (st *stress) flusher(r *gen.Rand, wg *sync.WaitGroup) {
 	}()
 	for !st.stop.Load() && !st.closed.Load() {
 		time.Sleep(time.Duration(r.Range(st.cfg.FlushMinMs, st.cfg.FlushMaxMs)) * time.Millisecond)
+		for st.pauseF.Load() && !st.stop.Load() {
+			time.Sleep(2 * time.Millisecond)
+		}
 		st.flushing.Add(1)
 		t0 := st.tick()
 		st.sh.ForceFlush()
@@ -556,6 +565,20 @@ func runStress(cfg stressCfg) stressOut {
 	go st.flusher(r.Fork(), &wgB)
 	go st.compactor(r.Fork(), &wgB)
 
+	// one quiet window per round: forced flushes stop, then writers stop with rows left in the memtable; after the
+	// write-cold duration (1 s, second granularity) the shard's own Snapshot goroutine flushes; forced flushes resume at
+	// a random moment inside the window so that a forced flush may meet a background snapshot in flight
+	go func() {
+		time.Sleep(time.Duration(cfg.DurationMs*35/100) * time.Millisecond)
+		st.pauseF.Store(true)
+		time.Sleep(120 * time.Millisecond)
+		st.pauseW.Store(true)
+		time.Sleep(time.Duration(1000+int(cfg.Seed%1100)) * time.Millisecond)
+		st.pauseF.Store(false)
+		time.Sleep(150 * time.Millisecond)
+		st.pauseW.Store(false)
+		st.bgWindows.Add(1)
+	}()
 	time.Sleep(time.Duration(cfg.DurationMs) * time.Millisecond)
 	// final close while everything is in flight
 	st.out.FileSeqEnd = sh.TableStore().GetFileSeq()
